@@ -16,6 +16,7 @@ import hashlib
 import importlib
 import json
 import os
+import re
 import shutil
 import subprocess
 import sys
@@ -36,6 +37,19 @@ def load_findings():
     if not os.path.exists(p):
         return {"findings": [], "fixed": []}
     return json.load(open(p))
+
+
+def match_known(sig, known):
+    """A finding key is a mechanism signature; '*' inside a key matches any run of characters
+    (used where one defect shows under many operand classes)."""
+    if sig in known:
+        return sig
+    for k in known:
+        if "*" in k:
+            rx = "^" + ".*".join(re.escape(part) for part in k.split("*")) + "$"
+            if re.match(rx, sig, re.S):
+                return k
+    return None
 
 
 def case_id(case):
@@ -180,8 +194,9 @@ def finish(pid, mod, tier, seed, all_cases, records, incon, wall):
     known = {f["key"]: f for f in kf.get("findings", []) if f.get("property") == pid}
     known_seen, unknown = {}, []
     for v in violations:
-        if v["sig"] in known:
-            known_seen.setdefault(v["sig"], []).append(v)
+        kk = match_known(v["sig"], known)
+        if kk is not None:
+            known_seen.setdefault(kk, []).append(v)
         else:
             unknown.append(v)
 
@@ -229,7 +244,7 @@ def finish(pid, mod, tier, seed, all_cases, records, incon, wall):
         "cases_generated": len(all_cases),
         "counters": {k: (v if not isinstance(v, list) else v[:60]) for k, v in sorted(counters.items())},
         "known_findings_seen": {k: len(v) for k, v in sorted(known_seen.items())},
-        "unlisted_violation_signatures": sorted(by_sig.keys())[:50],
+        "unlisted_violation_signatures": sorted(by_sig.keys())[:400],
         "inconclusive": incon[:20],
         "harness_errors": harness_errors[:20],
         "minimum_counts": mins,
@@ -287,8 +302,8 @@ def replay(pid, path):
     res = mod.run_case(ctx, case)
     print(json.dumps(res, indent=1, default=str)[:6000])
     kf = load_findings()
-    known = {f["key"] for f in kf.get("findings", []) if f.get("property") == pid}
-    bad = [v for v in res.get("violations") or [] if v["sig"] not in known]
+    known = {f["key"]: f for f in kf.get("findings", []) if f.get("property") == pid}
+    bad = [v for v in res.get("violations") or [] if match_known(v["sig"], known) is None]
     if bad:
         print("VIOLATION property=%s replay=%s" % (pid, path))
         return EXIT_VIOLATION
